@@ -1,28 +1,32 @@
 // ---- randomness oracle (stub for <rand_core::OsRng as TryRngCore>::try_fill_bytes, the crate's only source) ----
-// call j fills its buffer from a fresh symbolic array R_j and logs (j, len, bytes).
-pub const RNG_CALLS: usize = 4;
-pub const RNG_BYTES: usize = 64;
+// every call delivers fresh symbolic bytes, appended to one ordered stream; call j is the span off[j]..off[j]+len[j].
+pub const RNG_CALLS: usize = 8;
+pub const RNG_STREAM: usize = 400;
 pub struct RngState {
     pub magic: u64,
     pub n: usize,
+    pub total: usize,
+    pub off: [usize; RNG_CALLS],
     pub len: [usize; RNG_CALLS],
-    pub bytes: [[u8; RNG_BYTES]; RNG_CALLS],
+    pub stream: [u8; RNG_STREAM],
 }
-pub static mut RNGS: RngState = RngState { magic: 0x4E47000453EDC0DE, n: 0, len: [0; RNG_CALLS], bytes: [[0; RNG_BYTES]; RNG_CALLS] };
+pub static mut RNGS: RngState = RngState { magic: 0x4E47000453EDC0DE, n: 0, total: 0, off: [0; RNG_CALLS], len: [0; RNG_CALLS], stream: [0; RNG_STREAM] };
 
 pub fn rng_oracle_stub(_r: &mut rand_core::OsRng, dest: &mut [u8]) -> Result<(), rand_core::OsError> {
     unsafe {
         let j = RNGS.n;
         assert!(j < RNG_CALLS, "RNG_CALLS: more generator calls than the harness expects");
-        assert!(dest.len() <= RNG_BYTES, "RNG_LEN: request longer than the harness expects");
-        let r: [u8; RNG_BYTES] = kani::any();
+        assert!(RNGS.total + dest.len() <= RNG_STREAM, "RNG_LEN: more random bytes requested than the harness expects");
+        RNGS.off[j] = RNGS.total;
+        RNGS.len[j] = dest.len();
         let mut i = 0;
         while i < dest.len() {
-            dest[i] = r[i];
+            let b: u8 = kani::any();
+            dest[i] = b;
+            RNGS.stream[RNGS.total] = b;
+            RNGS.total += 1;
             i += 1;
         }
-        RNGS.bytes[j] = r;
-        RNGS.len[j] = dest.len();
         RNGS.n = j + 1;
     }
     Ok(())
@@ -34,7 +38,20 @@ pub fn is_rng_output(j: usize, v: &[u8]) -> bool {
         if j >= RNGS.n || RNGS.len[j] != v.len() { return false; }
         let mut i = 0;
         while i < v.len() {
-            if v[i] != RNGS.bytes[j][i] { return false; }
+            if v[i] != RNGS.stream[RNGS.off[j] + i] { return false; }
+            i += 1;
+        }
+        true
+    }
+}
+
+/// true iff `v` is exactly ALL bytes the generator delivered from stream position `start` on (however many calls that took)
+pub fn is_rng_span(start: usize, v: &[u8]) -> bool {
+    unsafe {
+        if RNGS.total != start + v.len() { return false; }
+        let mut i = 0;
+        while i < v.len() {
+            if v[i] != RNGS.stream[start + i] { return false; }
             i += 1;
         }
         true
